@@ -119,6 +119,12 @@ def spaces(tier, seed):
                         for m in methods:
                             l0.append(_case(ny, nx, tab, [], [], win, subpix, iv, DISTS, TAUS,
                                             kinds3 if m == "sad" else ["real"], m, indep=tab in tabs[:2]))
+    if quick:
+        # quarter-pixel planes (negative and positive fractional disparities select different shifted right images):
+        # a slice of the thorough subpix-4 space so that the quick tier sees every plane class
+        for (ny, nx) in [(3, 4), (4, 5)]:
+            for iv in [(-2, 1), (-1, 2)]:
+                l0.append(_case(ny, nx, tabs[0], [], [], 1, 4, iv, DISTS, TAUS, kinds3, "sad", indep=True))
     # ---- level 1: one masked pixel anywhere in either image
     l1 = []
     shapes1 = [((3, 4), (1, 3)), ((4, 5), (1, 3))] if quick else \
